@@ -73,17 +73,34 @@ func newApiWorld(t *testing.T, cap int32, tick, arm time.Duration) *apiWorld {
 	lg := newSigLogger()
 	rpcfilters.VerifSetFilterDeadline(tick)
 	clientCtx := client.Context{}.WithTxConfig(encTxConfig)
-	before := countGoroutines("PublicFilterAPI).timeoutLoop", "chan receive")
+	// the timeoutLoop goroutines that exist already (earlier worlds of this process: they cannot be stopped)
+	old := map[int]bool{}
+	for _, g := range goroutines() {
+		if strings.Contains(g.stack, "PublicFilterAPI).timeoutLoop") {
+			old[g.id] = true
+		}
+	}
 	cl := f.client()
 	t0 := time.Now()
 	api := rpcfilters.NewPublicAPI(lg, clientCtx, cl, apiBackend{cap: cap})
-	// timeoutLoop reads the deadline when it starts: wait until it is parked on its ticker
-	dl := time.Now().Add(20 * time.Second)
-	for countGoroutines("PublicFilterAPI).timeoutLoop", "chan receive") <= before {
-		if time.Now().After(dl) {
-			t.Fatalf("timeoutLoop did not start")
+	// timeoutLoop reads the package's deadline when it creates its ticker, its first statement: wait until THE NEW
+	// goroutine (an id that did not exist before) is parked in `<-ticker.C`. (Counting parked timeoutLoop goroutines is
+	// not enough: an older one that was in the middle of a tick when they were counted parks again and is mistaken for the
+	// new one, which then starts with the long deadline as its tick period and never expires anything.)
+	dl := time.Now().Add(2 * longWait)
+	for parked := false; !parked; {
+		for _, g := range goroutines() {
+			if !old[g.id] && strings.Contains(g.stack, "PublicFilterAPI).timeoutLoop") && g.state == "chan receive" {
+				parked = true
+			}
 		}
-		time.Sleep(100 * time.Microsecond)
+		if !parked {
+			if time.Now().After(dl) {
+				rpcfilters.VerifSetFilterDeadline(arm)
+				return nil
+			}
+			time.Sleep(100 * time.Microsecond)
+		}
 	}
 	rpcfilters.VerifSetFilterDeadline(arm)
 	return &apiWorld{t: t, f: f, lg: lg, api: api, t0: t0}
@@ -107,7 +124,7 @@ func (w *apiWorld) barrier() bool {
 	if w.f.pushQuiet(q, 0) != nil {
 		return false
 	}
-	deadline := time.Now().Add(30 * time.Second)
+	deadline := time.Now().Add(longWait)
 	for w.lg.seen(q) == 0 {
 		if time.Now().After(deadline) {
 			return false
@@ -142,53 +159,30 @@ func (f *fakeWS) pushTxQuiet(q string, tx []byte) error {
 	return f.conn.WriteMessage(websocket.TextMessage, []byte(msg))
 }
 
-// quietApi: the API's goroutines are parked at their loop heads as well
-func quietApi() (bool, string) {
-	if ok, why := quiet(); !ok {
-		return false, why
+// quietApi: the API's goroutines are parked at their loop heads as well (one snapshot for all components)
+func quietApi() (bool, string, int) {
+	gs := goroutines()
+	if ok, why, id := quietIn(gs); !ok {
+		return false, why, id
 	}
-	for _, g := range goroutines() {
+	for _, g := range gs {
 		s := g.stack
 		switch {
 		case strings.Contains(s, "PublicFilterAPI).NewBlockFilter.func1"), strings.Contains(s, "PublicFilterAPI).NewFilter.func1"),
 			strings.Contains(s, "PublicFilterAPI).NewPendingTransactionFilter.func1"):
 			if g.state != "select" {
-				return false, "filter consumer busy: " + g.state
+				return false, "filter consumer busy: " + g.state, g.id
 			}
 		case strings.Contains(s, "PublicFilterAPI).timeoutLoop"):
 			if g.state != "chan receive" {
-				return false, "timeoutLoop busy: " + g.state
+				return false, "timeoutLoop busy: " + g.state, g.id
 			}
 		}
 	}
-	return true, ""
+	return true, "", 0
 }
 
-func waitQuietApi(t *testing.T) {
-	deadline := time.Now().Add(30 * time.Second)
-	streak := 0
-	pause := 50 * time.Microsecond
-	for {
-		ok, why := quietApi()
-		if ok {
-			streak++
-			if streak >= 2 {
-				return
-			}
-			continue
-		}
-		streak = 0
-		if time.Now().After(deadline) {
-			watchdogHit = why
-			t.Logf("watchdog: API goroutines did not become quiet: %s", why)
-			return
-		}
-		time.Sleep(pause)
-		if pause < 2*time.Millisecond {
-			pause *= 2
-		}
-	}
-}
+func waitQuietApi(t *testing.T) { waitQuietWith(t, quietApi) }
 
 // ------------------------------------------------------------------ sequential histories
 
@@ -198,6 +192,124 @@ type apiHist struct {
 	Snaps []string `json:"snaps"`
 }
 
+// apiMirror: the sequential semantics of coq/Model/FilterApi.v (arun) once more, in Go, so that the driver knows which
+// state an op must lead to and can WAIT for it instead of guessing when the asynchronous part of the op has landed
+// (the Unsubscribe goroutine, eventLoop, the bus closing subscriber channels, the consumers dropping their filters,
+// timeoutLoop's next tick, the Subscribe request reaching the CometBFT endpoint). Filters are driver numbers.
+type apiMirror struct {
+	cap       int
+	typ       []int        // filter -> event type
+	installed map[int]bool // keys of api.filters
+	index     map[int]bool // subscriptions that went through es.install
+	topic     [3]bool
+	bsub      map[int]bool // open bus subscriber channels
+	hashes    map[int]int
+	wssub     [3]int
+}
+
+func newApiMirror(cap int) *apiMirror {
+	return &apiMirror{cap: cap, installed: map[int]bool{}, index: map[int]bool{}, bsub: map[int]bool{}, hashes: map[int]int{}}
+}
+
+func (m *apiMirror) unsubscribe(k int) {
+	ty := m.typ[k]
+	delete(m.index, k)
+	for g := range m.index {
+		if m.typ[g] == ty {
+			return // channelInUse
+		}
+	}
+	if m.topic[ty] { // RemoveTopic + close: every subscriber channel of the topic is closed, the consumers drop their filters
+		m.topic[ty] = false
+		for g := range m.bsub {
+			if m.typ[g] == ty {
+				delete(m.bsub, g)
+				delete(m.installed, g)
+			}
+		}
+	}
+}
+
+// the expected results: see aapply in FilterApi.v
+func (m *apiMirror) newFilter(ty int) int {
+	if len(m.installed) >= m.cap {
+		return 0
+	}
+	f := len(m.typ)
+	m.typ = append(m.typ, ty)
+	if !m.topic[ty] {
+		m.wssub[ty]++
+		m.index[f] = true
+		m.topic[ty] = true
+	}
+	m.bsub[f] = true
+	m.installed[f] = true
+	m.hashes[f] = 0
+	return f + 1
+}
+func (m *apiMirror) has(k int) bool { return k < len(m.typ) && m.installed[k] }
+func (m *apiMirror) uninstall(k int) int {
+	if !m.has(k) {
+		return 0
+	}
+	delete(m.installed, k)
+	m.unsubscribe(k)
+	return 1
+}
+func (m *apiMirror) changes(k int) int {
+	if !m.has(k) {
+		return 0
+	}
+	n := m.hashes[k]
+	m.hashes[k] = 0
+	return 1 + n
+}
+func (m *apiMirror) logs(k int) int {
+	if m.has(k) && m.typ[k] == 0 {
+		return 1
+	}
+	return 0
+}
+func (m *apiMirror) expire(k int) int {
+	if !m.has(k) {
+		return 0
+	}
+	m.hashes[k] = 0
+	delete(m.installed, k)
+	m.unsubscribe(k)
+	return 1
+}
+func (m *apiMirror) event(ty int, accepted bool) {
+	if !accepted || !m.topic[ty] {
+		return
+	}
+	for g := range m.bsub {
+		if m.typ[g] == ty && m.installed[g] {
+			m.hashes[g]++
+		}
+	}
+}
+func (m *apiMirror) filters() []int {
+	var l []int
+	for g := range m.installed {
+		l = append(l, g)
+	}
+	sort.Ints(l)
+	return l
+}
+
+func eqInts(a, b []int) bool {
+	if len(a) != len(b) {
+		return false
+	}
+	for i := range a {
+		if a[i] != b[i] {
+			return false
+		}
+	}
+	return true
+}
+
 // typ: 0 logs, 1 blocks, 2 pending transactions
 func runApiHistory(t *testing.T, r *Rng, side *Sidecar, nops int) (string, apiHist, bool) {
 	cap := 100
@@ -205,9 +317,15 @@ func runApiHistory(t *testing.T, r *Rng, side *Sidecar, nops int) (string, apiHi
 		cap = 2 + r.Intn(4)
 	}
 	const tick = 10 * time.Millisecond
+	hist := apiHist{Cap: cap}
 	w := newApiWorld(t, int32(cap), tick, time.Hour)
 	defer rpcfilters.VerifSetFilterDeadline(5 * time.Minute)
-	hist := apiHist{Cap: cap}
+	if w == nil {
+		skipReason = "timeoutLoop-not-seen-parked"
+		return "", hist, false
+	}
+	defer w.f.shutdown()
+	mir := newApiMirror(cap)
 	var ids []rpc.ID
 	idxOf := map[rpc.ID]int{}
 	queries := map[int]string{0: qEvm, 1: qHeader, 2: qTx}
@@ -221,106 +339,7 @@ func runApiHistory(t *testing.T, r *Rng, side *Sidecar, nops int) (string, apiHi
 		k := r.Intn(len(ids))
 		return k, ids[k]
 	}
-	for k := 0; k < nops; k++ {
-		res := 0
-		var opS string
-		kind := r.Intn(100)
-		switch {
-		case kind < 30:
-			typ := []int{1, 1, 0, 2}[r.Intn(4)]
-			var id rpc.ID
-			var err error
-			done := make(chan struct{})
-			go func() {
-				switch typ {
-				case 0:
-					id, err = w.api.NewFilter(ethLogsCrit())
-				case 1:
-					id = w.api.NewBlockFilter()
-				default:
-					id = w.api.NewPendingTransactionFilter()
-				}
-				close(done)
-			}()
-			select {
-			case <-done:
-			case <-time.After(30 * time.Second):
-				side.Hit("C20/pubsub/api/new-filter-deadlock", "a filter creation did not return within 30 s", hist)
-				return "", hist, false
-			}
-			if err != nil || strings.HasPrefix(string(id), "error creating") {
-				res = 0
-				side.Count("api_new:error")
-			} else {
-				idxOf[id] = len(ids)
-				ids = append(ids, id)
-				res = len(ids) // 1 + index
-			}
-			opS = fmt.Sprintf("ANew %d", typ)
-			side.Count("api_op:New")
-		case kind < 52:
-			i, id := pick()
-			if w.api.UninstallFilter(id) {
-				res = 1
-				nontrivial = true
-			}
-			opS = fmt.Sprintf("AUninstall %d", i)
-			side.Count(fmt.Sprintf("api_op:Uninstall:found=%d", res))
-		case kind < 67:
-			i, id := pick()
-			v, err := w.api.GetFilterChanges(id)
-			if err == nil {
-				res = 1 + changesLen(v)
-			}
-			opS = fmt.Sprintf("AChanges %d", i)
-			side.Count(fmt.Sprintf("api_op:Changes:found=%v", err == nil))
-		case kind < 72:
-			i, id := pick()
-			_, err := w.api.GetFilterLogs(nil, id) //nolint:staticcheck
-			if err == nil {
-				res = 1
-			}
-			opS = fmt.Sprintf("ALogs %d", i)
-			side.Count(fmt.Sprintf("api_op:Logs:ok=%v", err == nil))
-		case kind < 82: // let the filter's inactivity timer expire: re-arm it with a tiny deadline through a poll
-			i, id := pick()
-			rpcfilters.VerifSetFilterDeadline(time.Microsecond)
-			_, err := w.api.GetFilterChanges(id)
-			rpcfilters.VerifSetFilterDeadline(time.Hour)
-			if err == nil {
-				res = 1
-				nontrivial = true
-				// the next tick of timeoutLoop finds the expired timer
-				dl := time.Now().Add(20 * time.Second)
-				for containsID(w.api.VerifFilterIDs(), id) {
-					if time.Now().After(dl) {
-						side.Hit("C20/pubsub/api/expired-filter-not-removed", "timeoutLoop did not remove a filter whose timer expired within 20 s", hist)
-						return "", hist, false
-					}
-					time.Sleep(200 * time.Microsecond)
-				}
-			}
-			opS = fmt.Sprintf("AExpire %d", i)
-			side.Count(fmt.Sprintf("api_op:Expire:found=%d", res))
-		default:
-			typ := []int{1, 1, 1, 0, 2}[r.Intn(5)]
-			height++
-			var err error
-			if typ == 1 {
-				err = w.f.pushHeader(queries[1], height)
-			} else {
-				err = w.f.pushQuiet(queries[typ], int(height)) // data of another type: the consumers skip it
-			}
-			require.NoError(t, err)
-			if !w.barrier() {
-				side.Hit("C20/pubsub/api/consume-stuck", "consumeEvents did not process an event within 30 s", hist)
-				return "", hist, false
-			}
-			opS = fmt.Sprintf("AEvent %d %s", typ, CqBool(typ == 1))
-			side.Count("api_op:Event")
-		}
-		progress("PublicFilterAPI", hist.Ops, opS+" (executed; waiting for the goroutines)")
-		waitQuietApi(t)
+	observe := func() ([]int, []int) {
 		var present []int
 		for _, id := range w.api.VerifFilterIDs() {
 			present = append(present, idxOf[id])
@@ -336,23 +355,190 @@ func runApiHistory(t *testing.T, r *Rng, side *Sidecar, nops int) (string, apiHi
 			}
 		}
 		w.f.mu.Unlock()
+		return present, subs
+	}
+	// an API call that does not return: a verdict only with a goroutine the runtime reports as blocked for minutes
+	apiCall := func(name string, f func()) bool {
+		ok, ev := patiently(f)
+		if ok {
+			return true
+		}
+		if ev != "" && strings.Contains(ev, "PublicFilterAPI).") {
+			side.Hit("C20/pubsub/api/call-never-returns/"+name, "a filter API call has been blocked for minutes", map[string]interface{}{"history": hist, "blocked": ev})
+		} else {
+			skipReason = "api-call-slow:" + name
+		}
+		return false
+	}
+	for k := 0; k < nops; k++ {
+		res, want := 0, 0
+		countOnly := false // the result depends on best-effort event delivery: a difference is no verdict
+		var opS string
+		kind := r.Intn(100)
+		switch {
+		case kind < 30:
+			typ := []int{1, 1, 0, 2}[r.Intn(4)]
+			var id rpc.ID
+			var err error
+			if !apiCall("new", func() {
+				switch typ {
+				case 0:
+					id, err = w.api.NewFilter(ethLogsCrit())
+				case 1:
+					id = w.api.NewBlockFilter()
+				default:
+					id = w.api.NewPendingTransactionFilter()
+				}
+			}) {
+				return "", hist, false
+			}
+			if err != nil || strings.HasPrefix(string(id), "error creating") {
+				res = 0
+				side.Count("api_new:error")
+			} else {
+				idxOf[id] = len(ids)
+				ids = append(ids, id)
+				res = len(ids) // 1 + index
+			}
+			want = mir.newFilter(typ)
+			if (want == 0) != (res == 0) { // the driver's numbering would drift from the mirror's: give the model the case as seen
+				want = -1
+			}
+			opS = fmt.Sprintf("ANew %d", typ)
+			side.Count("api_op:New")
+		case kind < 52:
+			i, id := pick()
+			if !apiCall("uninstall", func() {
+				if w.api.UninstallFilter(id) {
+					res = 1
+				}
+			}) {
+				return "", hist, false
+			}
+			nontrivial = nontrivial || res == 1
+			want = mir.uninstall(i)
+			opS = fmt.Sprintf("AUninstall %d", i)
+			side.Count(fmt.Sprintf("api_op:Uninstall:found=%d", res))
+		case kind < 67:
+			i, id := pick()
+			if !apiCall("changes", func() {
+				if v, err := w.api.GetFilterChanges(id); err == nil {
+					res = 1 + changesLen(v)
+				}
+			}) {
+				return "", hist, false
+			}
+			want = mir.changes(i)
+			countOnly = res > 0 && want > 0
+			opS = fmt.Sprintf("AChanges %d", i)
+			side.Count(fmt.Sprintf("api_op:Changes:found=%v", res > 0))
+		case kind < 72:
+			i, id := pick()
+			if !apiCall("logs", func() {
+				if _, err := w.api.GetFilterLogs(nil, id); err == nil { //nolint:staticcheck
+					res = 1
+				}
+			}) {
+				return "", hist, false
+			}
+			want = mir.logs(i)
+			opS = fmt.Sprintf("ALogs %d", i)
+			side.Count(fmt.Sprintf("api_op:Logs:ok=%v", res == 1))
+		case kind < 82: // let the filter's inactivity timer expire: re-arm it with a tiny deadline through a poll
+			i, id := pick()
+			rpcfilters.VerifSetFilterDeadline(time.Microsecond)
+			ok := apiCall("changes", func() {
+				if _, err := w.api.GetFilterChanges(id); err == nil {
+					res = 1
+				}
+			})
+			rpcfilters.VerifSetFilterDeadline(time.Hour)
+			if !ok {
+				return "", hist, false
+			}
+			nontrivial = nontrivial || res == 1
+			want = mir.expire(i) // the next tick of timeoutLoop finds the fired timer: waited for below
+			opS = fmt.Sprintf("AExpire %d", i)
+			side.Count(fmt.Sprintf("api_op:Expire:found=%d", res))
+		default:
+			typ := []int{1, 1, 1, 0, 2}[r.Intn(5)]
+			height++
+			var err error
+			if typ == 1 {
+				err = w.f.pushHeader(queries[1], height)
+			} else {
+				err = w.f.pushQuiet(queries[typ], int(height)) // data of another type: the consumers skip it
+			}
+			if err != nil || !w.barrier() {
+				if ev := blockedEvidence("EventSystem).consumeEvents"); ev != "" && !strings.Contains(ev, "[chan receive") {
+					side.Hit("C20/pubsub/api/consume-stuck", "consumeEvents has been blocked for minutes", map[string]interface{}{"history": hist, "blocked": ev})
+				} else {
+					skipReason = "api-barrier-slow"
+				}
+				return "", hist, false
+			}
+			mir.event(typ, typ == 1)
+			opS = fmt.Sprintf("AEvent %d %s", typ, CqBool(typ == 1))
+			side.Count("api_op:Event")
+		}
+		progress("PublicFilterAPI", hist.Ops, opS+" (executed; waiting for the goroutines)")
+		// wait for the state the op must lead to (and for the goroutines to be back at their loop heads: the next op's
+		// events are delivered only to consumers that are parked)
+		var present, subs []int
+		reached := false
+		for dl := time.Now().Add(longWait); ; {
+			waitQuietApi(t)
+			if watchdogHit != "" || skipReason != "" {
+				break
+			}
+			present, subs = observe()
+			if eqInts(present, mir.filters()) && eqInts(subs, mir.wssub[:]) {
+				reached = true
+				break
+			}
+			if want == -1 || time.Now().After(dl) {
+				break
+			}
+			time.Sleep(200 * time.Microsecond)
+		}
+		if watchdogHit != "" || skipReason != "" {
+			break
+		}
+		switch {
+		case want == -1:
+			// creation succeeded / failed against the expectation: nothing to wait for, the model gets what was seen
+		case !reached:
+			skipReason = "expected-state-not-reached"
+			side.Extra["api_last_unreached"] = map[string]interface{}{"history": hist, "op": opS, "seen_filters": present, "seen_subscribes": subs,
+				"expected_filters": mir.filters(), "expected_subscribes": mir.wssub}
+			return "", hist, false
+		case countOnly && res != want:
+			skipReason = "event-count-differs"
+			return "", hist, false
+		}
 		snap := fmt.Sprintf("(mkASnap %s %s %s false)", CqNat(res), cqNatList(present), cqNatList(subs))
 		ops = append(ops, "("+opS+")")
 		snaps = append(snaps, snap)
 		hist.Ops = append(hist.Ops, opS)
 		hist.Snaps = append(hist.Snaps, snap)
-		if watchdogHit != "" {
-			break
+		if want == -1 {
+			break // the history ends here (numbering no longer shared with the mirror)
 		}
+	}
+	if watchdogHit != "" || skipReason != "" {
+		return "", hist, false
 	}
 	// leave as little as possible behind: the filters' consumers and topics end with their filters, then the endpoint
 	for _, id := range w.api.VerifFilterIDs() {
-		w.api.UninstallFilter(id)
+		id := id
+		if !apiCall("uninstall", func() { w.api.UninstallFilter(id) }) {
+			return "", hist, false
+		}
 	}
-	if watchdogHit == "" {
-		waitQuietApi(t)
+	waitQuietApi(t)
+	if watchdogHit != "" || skipReason != "" {
+		return "", hist, false
 	}
-	w.f.shutdown()
 	return fmt.Sprintf("(PApi %s %s %s)", CqNat(cap), CqList(ops), CqList(snaps)), hist, nontrivial
 }
 
@@ -390,6 +576,10 @@ func TestChildApiStress(t *testing.T) {
 	const k = 8
 	const dl = 4 * time.Millisecond // inactivity deadline and timeoutLoop tick
 	w := newApiWorld(t, 1000, dl, dl)
+	if w == nil {
+		fmt.Println("APISTRESS inconclusive: timeoutLoop not seen parked")
+		return
+	}
 	keep := []rpc.ID{}
 	stopPoll := make(chan struct{})
 	if seed%2 == 0 { // half of the seeds: installer filters that stay alive (polled), so that other filters are plain bus subscribers
@@ -457,10 +647,15 @@ func TestChildApiStress(t *testing.T) {
 			case <-wdStop:
 				return
 			case <-time.After(500 * time.Millisecond):
-				if atomic.LoadInt64(&inFlight) > 0 && time.Since(time.Unix(0, lastProgress.Load())) > 10*time.Second {
-					fmt.Println("APISTRESS deadlock: an API call has not returned for 10 s")
-					buf := make([]byte, 1<<18)
-					fmt.Println(string(buf[:runtimeStack(buf)]))
+				// no API call at all has returned for longWait although calls are in flight; the dump (the runtime marks
+				// goroutines blocked for minutes) decides in the parent whether this is a deadlock or a slow machine
+				if atomic.LoadInt64(&inFlight) > 0 && time.Since(time.Unix(0, lastProgress.Load())) > longWait {
+					fmt.Println("APISTRESS deadlock: no API call has returned for", longWait)
+					for _, g := range goroutines() {
+						if strings.Contains(g.stack, "PublicFilterAPI") || strings.Contains(g.stack, "EventSystem") || strings.Contains(g.stack, "memEventBus") {
+							fmt.Println(g.stack + "\n")
+						}
+					}
 					os.Exit(3)
 				}
 			}
@@ -619,21 +814,9 @@ func TestChildApiStress(t *testing.T) {
 	}
 }
 
-func runtimeStack(buf []byte) int {
-	return copy(buf, []byte(func() string {
-		var sb strings.Builder
-		for _, g := range goroutines() {
-			if strings.Contains(g.stack, "PublicFilterAPI") || strings.Contains(g.stack, "EventSystem") {
-				sb.WriteString(g.stack)
-				sb.WriteString("\n\n")
-			}
-		}
-		return sb.String()
-	}()))
-}
-
 type apiStressResult struct {
 	OK      bool
+	Died    bool // ended by a panic / fatal error of the code under test, or with goroutines of it blocked for minutes
 	Rounds  int
 	Doubles int
 	Out     string
@@ -642,13 +825,15 @@ type apiStressResult struct {
 func runApiStressChild(t *testing.T, ms int) apiStressResult {
 	exe, err := os.Executable()
 	require.NoError(t, err)
-	cmd := exec.Command(exe, "-test.run", "^TestChildApiStress$", "-test.count", "1", "-test.timeout", "600s")
+	cmd := exec.Command(exe, "-test.run", "^TestChildApiStress$", "-test.count", "1", "-test.timeout", "3000s")
 	cmd.Env = append(os.Environ(), "VERIF_PUBSUB_CHILD=apistress", fmt.Sprintf("VERIF_APISTRESS_MS=%d", ms))
 	var buf bytes.Buffer
 	cmd.Stdout, cmd.Stderr = &buf, &buf
 	runErr := cmd.Run()
 	out := buf.String()
 	res := apiStressResult{Out: out, OK: runErr == nil && strings.Contains(out, "APISTRESS survived")}
+	res.Died = !res.OK && (diedByPanic(runErr, out) || strings.Contains(out, "final_ok=false") ||
+		minutesBlocked(out, "PublicFilterAPI).", "EventSystem).", "memEventBus)."))
 	if i := strings.Index(out, "APISTRESS rounds="); i >= 0 {
 		_, _ = fmt.Sscanf(out[i:], "APISTRESS rounds=%d doubles=%d", &res.Rounds, &res.Doubles)
 	}
@@ -656,7 +841,7 @@ func runApiStressChild(t *testing.T, ms int) apiStressResult {
 }
 
 // apiStress runs the child and turns its fate into oracle hits.
-func apiStress(t *testing.T, side *Sidecar, ms int) bool {
+func apiStress(t *testing.T, side *Sidecar, ms int) (survived, conclusive bool) {
 	res := runApiStressChild(t, ms)
 	side.Count(fmt.Sprintf("api_stress:ok=%v", res.OK))
 	side.Extra["api_stress_rounds"] = res.Rounds
@@ -666,7 +851,11 @@ func apiStress(t *testing.T, side *Sidecar, ms int) bool {
 			map[string]interface{}{"output_tail": tail(out, 1500)})
 	}
 	if res.OK {
-		return res.Doubles == 0
+		return res.Doubles == 0, true
+	}
+	if !res.Died {
+		side.Count("skipped:api-stress-child-ended-without-verdict")
+		return false, false
 	}
 	sig := "C20/pubsub/api-stress/crash"
 	switch {
@@ -696,5 +885,5 @@ func apiStress(t *testing.T, side *Sidecar, ms int) bool {
 	}
 	side.Hit(sig, "the process running concurrent JSON-RPC filter calls (k goroutines on shared filter ids, timeoutLoop expiring filters, events streaming) died or stalled",
 		map[string]interface{}{"stderr": ex})
-	return false
+	return false, true
 }
